@@ -138,7 +138,7 @@ Definition ext_match (s : mesh) (vs : list nat) (he0 hf : nat) : bool :=
 
 Definition find_halfface_extensive (s : mesh) (vs : list nat) : option nat :=
   match vs with
-  | v0 :: v1 :: _ :: _ =>
+  | v0 :: v1 :: _ =>       (* only _vs[0], _vs[1] are read before the size comparison (the assert asks for > 2) *)
       match find_halfedge s v0 v1 with
       | None => None
       | Some he0 => find (ext_match s vs he0) (hehf_list s he0)
